@@ -733,6 +733,10 @@ fn mode_spy(j: &mut Judge) {
         let queue = if faults { Some(r.range(1, 3) as usize) } else { None };
         let (rx, sink) = if default_cap && queue.is_none() { BufferedSpyMetricSink::new() } else { BufferedSpyMetricSink::with_capacity(queue, if default_cap { None } else { Some(cap) }) };
         let nops = r.range(5, 80) as usize;
+        // in a fifth of the fault histories the receiving end goes away for good at some step: from then on every write
+        // the sink attempts fails (and is reported as a failure - each one, not only the first)
+        let gone_at = if faults && r.chance(1, 5) { Some(r.range(1, nops as u64) as usize) } else { None };
+        let mut rx = Some(rx);
         let reuse_buffer = cs % 2 == 0;
         let mut line_buf = String::with_capacity(8192);
         if reuse_buffer {
@@ -742,16 +746,26 @@ fn mode_spy(j: &mut Judge) {
         let mut arrived: Vec<Vec<u8>> = Vec::new();
         let mut fill_hint = 0usize;
         for k in 0..nops {
-            if !faults || r.chance(1, 2) {
-                while let Ok(b) = rx.try_recv() {
-                    arrived.push(b);
+            if gone_at == Some(k) {
+                if let Some(rx) = rx.take() {
+                    while let Ok(b) = rx.try_recv() {
+                        arrived.push(b);
+                    }
                 }
-            } else if r.chance(1, 2) {
-                if let Ok(b) = rx.try_recv() {
-                    arrived.push(b);
+                j.rep.obs("spy_histories_whose_receiver_goes_away_midway", 1);
+            }
+            if let Some(rx) = &rx {
+                if !faults || r.chance(1, 2) {
+                    while let Ok(b) = rx.try_recv() {
+                        arrived.push(b);
+                    }
+                } else if r.chance(1, 2) {
+                    if let Ok(b) = rx.try_recv() {
+                        arrived.push(b);
+                    }
                 }
             }
-            let before = rx.len();
+            let before = rx.as_ref().map(|x| x.len()).unwrap_or(0);
             let (op, res) = if r.chance(1, 12) {
                 let _ = panics::guard(|| sink.stats());
                 (Op::Query, Res::OkUnit)
@@ -780,20 +794,98 @@ fn mode_spy(j: &mut Judge) {
                     (Op::Emit(m), io_res_emit(panics::guard(|| sink.emit(&ms))))
                 }
             };
-            let after = rx.len();
+            let after = rx.as_ref().map(|x| x.len()).unwrap_or(0);
             let panicked = matches!(res, Res::Panicked(_));
             calls.push((op, res, after.saturating_sub(before)));
             if panicked {
                 break;
             }
         }
-        while let Ok(b) = rx.try_recv() {
-            arrived.push(b);
+        // a twelfth of the fault histories leave the channel as it is before the drop (the others make room for the drop's
+        // write): if it is full and something is still buffered - a last flush tells, as below - the drop's one write
+        // attempt fails there and then. A reader that starts draining a moment later changes nothing about that: a
+        // destructor that waits for room, or tries again, is seen as datagrams arriving late or twice.
+        let full_at_drop = faults && rx.is_some() && r.chance(1, 12);
+        let mut sink = Some(sink);
+        if let (Some(rx), false) = (&rx, full_at_drop) {
+            while let Ok(b) = rx.try_recv() {
+                arrived.push(b);
+            }
+        }
+        let mut late: Option<(usize, Vec<Vec<u8>>)> = None;
+        if full_at_drop {
+            let b4 = rx.as_ref().map(|x| x.len()).unwrap_or(0);
+            let fr = io_res_flush(panics::guard(|| sink.as_ref().unwrap().flush()));
+            let was_full = matches!(fr, Res::Err(_));
+            calls.push((Op::Flush, fr, rx.as_ref().map(|x| x.len()).unwrap_or(0).saturating_sub(b4)));
+            if was_full {
+                j.rep.obs("spy_sinks_dropped_with_lines_buffered_and_the_channel_full_while_a_reader_starts_late", 1);
+                let rxr = rx.as_ref().unwrap();
+                let in_channel = rxr.len();
+                let mut got: Vec<Vec<u8>> = Vec::new();
+                let mut dropres = None;
+                std::thread::scope(|sc| {
+                    let h = sc.spawn(|| {
+                        let mut v = Vec::new();
+                        std::thread::sleep(std::time::Duration::from_millis(30));
+                        let t0 = std::time::Instant::now();
+                        while t0.elapsed() < std::time::Duration::from_millis(320) {
+                            match rxr.try_recv() {
+                                Ok(b) => v.push(b),
+                                Err(_) => std::thread::sleep(std::time::Duration::from_millis(2)),
+                            }
+                        }
+                        v
+                    });
+                    let sk = sink.take();
+                    dropres = Some(panics::guard(move || drop(sk)));
+                    got = h.join().unwrap_or_default();
+                });
+                let r2 = dropres.unwrap();
+                let n_drop = got.len().saturating_sub(in_channel);
+                arrived.extend(got);
+                // (the attempt that failed is inferred only if nothing of the drop arrived)
+                calls.push((Op::Drop, if let Err(p) = r2 { Res::Panicked(p) } else { Res::Dropped }, n_drop));
+                late = Some((n_drop, Vec::new()));
+            }
+        }
+        if let Some((n_drop, _)) = &late {
+            let n_drop = *n_drop;
+            let mut it = arrived.into_iter();
+            let mut steps = Vec::new();
+            for (op, res, n) in calls {
+                let mut attempts: Vec<Attempt> = Vec::new();
+                for _ in 0..n {
+                    if let Some(b) = it.next() {
+                        attempts.push(Attempt { bytes: Some(b), out: AOut::Ok });
+                    }
+                }
+                if matches!(res, Res::Err(_)) || (matches!(op, Op::Drop) && n_drop == 0) {
+                    attempts.push(Attempt { bytes: None, out: AOut::Failed(0) });
+                }
+                steps.push(Step { op, attempts, res });
+            }
+            j.judge(cap, "\n", &steps, vec![("case-seed", cs.to_string()), ("cases", "1".into())], "W2-full-at-drop");
+            if only.is_some() || j.rep.violation_count >= 12 {
+                break;
+            }
+            continue;
+        }
+        // with the receiver gone the drop's own write (if there is anything to write) fails unseen: a last flush tells
+        // whether there is - it fails exactly when something is still buffered, and leaves it buffered
+        let mut drop_write_fails = false;
+        if rx.is_none() {
+            let fr = io_res_flush(panics::guard(|| sink.as_ref().unwrap().flush()));
+            drop_write_fails = matches!(fr, Res::Err(_));
+            calls.push((Op::Flush, fr, 0));
         }
         let before = arrived.len();
-        let r2 = panics::guard(move || drop(sink));
-        while let Ok(b) = rx.try_recv() {
-            arrived.push(b);
+        let sk = sink.take();
+        let r2 = panics::guard(move || drop(sk));
+        if let Some(rx) = &rx {
+            while let Ok(b) = rx.try_recv() {
+                arrived.push(b);
+            }
         }
         let drop_n = arrived.len() - before;
         calls.push((Op::Drop, if let Err(p) = r2 { Res::Panicked(p) } else { Res::Dropped }, drop_n));
@@ -807,7 +899,7 @@ fn mode_spy(j: &mut Judge) {
                     attempts.push(Attempt { bytes: Some(b), out: AOut::Ok });
                 }
             }
-            if matches!(res, Res::Err(_)) {
+            if matches!(res, Res::Err(_)) || (matches!(op, Op::Drop) && drop_write_fails) {
                 // the failed attempt itself leaves no message: it is inferred from the result (always the last attempt of a call)
                 attempts.push(Attempt { bytes: None, out: AOut::Failed(0) });
             }
